@@ -32,6 +32,11 @@ type serverConn struct {
 	parserMu sync.Mutex
 	parser   parser.Parser
 
+	// Admission of a socket (see Namespace.doConnect) and the start
+	// of closing the connection exclude each other.
+	admitMu sync.Mutex
+	closed  bool
+
 	closeOnce sync.Once
 	debug     Debugger
 }
@@ -235,6 +240,13 @@ func (c *serverConn) onClose(reason Reason, err error) {
 	// We don't want it to close more than once,
 	// so we use sync.Once to avoid running onClose more than once.
 	c.closeOnce.Do(func() {
+		// From now on, no socket is admitted to this connection. The sockets that were
+		// admitted before are closed below. Otherwise, a socket admitted while (or after)
+		// the connection is being closed (a slow middleware) stays on the server forever.
+		c.admitMu.Lock()
+		c.closed = true
+		c.admitMu.Unlock()
+
 		sockets := c.sockets.getAndRemoveAll()
 		for _, socket := range sockets {
 			socket.onClose(reason)
